@@ -6,6 +6,8 @@ ENUM="bounded-exhaustive enumeration of inputs on the real implementation agains
 C={
 "C01":("exploration","every schema of G-schema/2020 (atoms, applicator forms, keyword pairs, family triples, nesting, $ref/$defs/$anchor, recursion) and of G-uneval is run through Unmarshal->Resolve->Validate for every pool instance and compared with the reference validator R1; the space is enumerated completely","trusted: R1 (passes all 2,012 official suite cases; agrees with python-jsonschema on the enumerated pools), meta-schema guard on generated documents; multipleOf only inside the exactness domain",ENUM,"§6 C01"),
 "C02":("exploration","G-schema/07 under the draft-07 $schema x instance pool vs R1 in draft-07 mode; the $schema configuration axis (supported values give that draft's verdicts, unsupported ones must be refused by Validate for every instance); remote documents with/without $schema reached from every kind of position, 1 and 2 hops","trusted: R1 draft-07 mode (913 official cases), meta-schema guard; only draft-07 vocabulary is generated",ENUM+" over inputs x $schema configurations","§6 C02"),
+"C03":("model_checking","reference topologies of G-uri: single-document worlds (root/embedded/nested resources with relative, absolute, urn $ids; anchors; 65 ref forms; probe in one or two resources; BaseURI empty/absolute; Loader nil/present) and multi-document universes in 13 shapes (chains, diamonds, cycles, aliases, back-references) x every fragment form per edge x $id modes x EVERY subset of failing loader URIs; Resolve error iff the oracle says so, verdict per marker, loader call log","trusted: R1 + R3 (RFC 3986 resolution written from the RFC, no net/url); relative references against a urn: base and relative references without an absolute base are 'either'","exhaustive enumeration of reference universes and of loader fault subsets (environment answers) executed on the real Resolve/Validate","§6 C03"),
+"C17":("exploration","for both drafts a container with a uniquely marked subschema under every schema-valued / array-valued / map-valued keyword x a 27-key alphabet x indices, nested to depth 2, addressed by percent-encoded (and raw) RFC 6901 pointers; every invalid mutation of every pointer must make Resolve fail","trusted: pointer construction from an independent keyword table + RFC 6901/3986 encoders in internal/ref; R1 must agree with the constructed expectation",ENUM,"§6 C17"),
 "C06":("model_checking","all dynamic-scope topologies of G-dyn (chains of <=4/5 resources x anchor kinds x hop kinds x final $dynamicRef forms x placement; two-scope roots) compared with R1's dynamic scope, plus exhaustive call histories on one Resolved (every 2-call history from every first call; every 3-call history on a subset), each call compared with a fresh Resolved","trusted: R1's dynamic-scope semantics (official dynamicRef.json; agrees with python-jsonschema on the G-dyn pool)","explicit enumeration of topologies and of Validate call histories on the real Resolved (states = history prefixes)","§6 C06"),
 "C07":("exploration","all G-uneval combinator trees (depth<=2, thorough 3) next to unevaluatedProperties/unevaluatedItems x every object over {a,b,c}x{1,\"x\"} / every array of length<=3, compared with R1's annotation semantics","trusted: R1 annotation semantics (official suite incl. 188 unevaluated* cases; agrees with python-jsonschema on all 1.0M enumerated pairs)",ENUM,"§6 C07"),
 "C11":("exploration","every ordered pair of the represented-value set (all Go representations, up to the stated deviation bound, of a 52-value JSON pool) is executed on jsonschema.Equal and compared with an independent canonical-form equality; triples of a subset check the equivalence laws directly","trusted: the reference canonical form R2 (two independent constructions that must agree), encoding/json, math/big","bounded-exhaustive enumeration of input pairs against a reference model","§6 C11"),
